@@ -286,6 +286,44 @@ func nep2One(c *chk, in string) {
 	}
 }
 
+// nep2UnicodeOne: passphrases that contain Unicode compatibility characters. Input
+// "<right passphrase>|<its compatibility twin>": the two are DIFFERENT passphrases
+// (not canonically equivalent, they differ after NFC), so each must open what it
+// encrypted and must not open what the other encrypted.
+func nep2UnicodeOne(c *chk, in string) {
+	const sec = "nep2-unicode"
+	st := c.sec(sec)
+	c.seen(sec, in)
+	k := strings.IndexByte(in, '|')
+	a, b := in[:k], in[k+1:]
+	priv := testKey(1)
+	params := keys.NEP2ScryptParams()
+	st.Inputs.Inc()
+	st.Nontrivial.Inc()
+	for _, pr := range [][2]string{{a, b}, {b, a}} {
+		right, wrong := pr[0], pr[1]
+		enc, err := keys.NEP2Encrypt(priv, right, params)
+		st.Calls.Inc()
+		st.Evals.Inc()
+		if err != nil {
+			c.bad2(sec, "nep2-encrypt:NEP2Encrypt", fmt.Sprintf("pass=%+q", right), in, 1, fmt.Sprintf("err=%v", err))
+			continue
+		}
+		dec, err := keys.NEP2Decrypt(enc, right, params)
+		st.Calls.Inc()
+		st.Evals.Inc()
+		if err != nil || dec.D.Cmp(priv.D) != 0 {
+			c.bad2(sec, "nep2-roundtrip:NEP2Decrypt(NEP2Encrypt)", fmt.Sprintf("pass=%+q", right), in, 1, fmt.Sprintf("the passphrase that encrypted the key does not open it: err=%v", err))
+		}
+		_, err = keys.NEP2Decrypt(enc, wrong, params)
+		st.Calls.Inc()
+		st.Evals.Inc()
+		if err == nil {
+			c.bad2(sec, "nep2-accepts-wrong-passphrase:NEP2Decrypt", fmt.Sprintf("right=%+q:wrong=%+q", right, wrong), in, 1, "decrypted without error")
+		}
+	}
+}
+
 // ---- sign / verify -------------------------------------------------------------------------------
 
 func rfc6979ByStdlib(priv *keys.PrivateKey, digest []byte) (sig []byte, ok bool) {
@@ -416,6 +454,23 @@ func init() {
 			for _, cs := range cases[:vk.Pick(c.r, 2, 3)] {
 				cs := cs
 				out = append(out, func() { nep2One(c, cs) })
+			}
+			return out
+		},
+	})
+	register(&section{
+		name: "nep2-unicode",
+		rule: "passphrases with Unicode compatibility characters (fullwidth letters, ligature, superscript, circled digit, roman numeral, trade mark, ideographic space; thorough: 4 more) against their compatibility twins, both directions, standard scrypt parameters: each opens what it encrypted and is rejected for what its twin encrypted (the twins differ after NFC, so they are different passphrases)",
+		one:  nep2UnicodeOne,
+		shards: func(c *chk) []func() {
+			cases := []string{
+				"\uff50\uff41\uff53\uff53\uff11\uff12\uff13|pass123", "\ufb01nance|finance", "e=mc\u00b2|e=mc2", "\u2460st|1st",
+				"\u2163 kings|IV kings", "neo\u2122|neoTM", "a\u3000b|a b",
+				"\ufb03x|ffix", "\u00bd|1\u20442", "x\u2075|x5", "\u017fecret|secret",
+			}
+			var out []func()
+			for _, cs := range cases[:vk.Pick(c.r, 7, 11)] {
+				out = append(out, func() { nep2UnicodeOne(c, cs) })
 			}
 			return out
 		},
